@@ -6,7 +6,7 @@ CONSTANTS
   Amts <- A01
   Genesis <- GenEL
   HasLock <- LockEL
-  Ops <- OpsE
+  Ops <- OpsES
   MaxMut = 10
   MaxSnap = 7
   MaxDepth = 4
